@@ -3,7 +3,12 @@
 PART 1 of this module (up to the marker `# ==== C03 check`) is the converter layer shared with C17
 (harness/props/c17.py imports it): interning of strings, canonical keys of leaf payloads, ONNX proto ->
 Gallina `mproto` term, Python IR -> canonical observation (`Canon.obs`) and Python IR -> Gallina heap.
-PART 2 is the C03 check itself (see the log at the top of PART 2).
+PART 2 is the C03 check itself (see the log `C03_LOG` at the top of PART 2): IR models are built from JSON recipes
+through the public API (construction + edit history, several tensor implementations, nested graphs capturing outer
+values, functions), serialized twice and read back; the property oracle (snapshots of every public accessor around
+to_proto, proto equality, an independent isomorphism check) runs on every case, and Coq evaluates per case the
+agreement of Model.ser_model / deser_model with the code, the statement of C03_iso and the agreement of
+Iso.serializable_b with its Python restatement.  Level: translation_validation (C03_iso is not proved).
 
 Model: coq/theories/C03/Model.v (protos, IR heap, constructors, deser_*, ser_*), C03/Canon.v (canonical
 observations).  Names are tokens (0 = ""), leaf payloads (tensor contents, type+shape+doc+metadata of a
@@ -619,7 +624,9 @@ C03_LOG = """
 C03 check (PART 2) - running log of decisions.
 
 THEOREMS (coq/theories/C03/Property.v, owned by the orchestrating engineer): C03_ser_deterministic (serializing
-twice from the same state gives equal results), C03_ser_readonly (ser_model changes nothing in the heap but tensor
+twice from the same state gives equal results), C03_ser_twice_equal (FULL: ser_model np h m = Ok (h1, q) ->
+exists h2, ser_model np h1 m = Ok (h2, q): the second to_proto, from the state the first one left behind, yields
+the same proto; C03/Twice.v, "the serializer never reads a tensor's own name"), C03_ser_readonly (ser_model changes nothing in the heap but tensor
 names), C03_roundtrip_consistent_partial (whatever was serialized, if the proto deserializes the result satisfies
 the use-def invariant).  The principal statement C03_iso (Inv h -> serializable h m -> the round trip is
 isomorphic) is NOT proved: `iso_statement_b np h m` - the statement instantiated on the concrete state - is
@@ -709,7 +716,20 @@ FINDINGS
 PART 1 CHANGES (C17 re-checked): function attribute tokens order-insensitive; attr_key/ir_attr_entry take
 tensor_key_fn so tensor-valued node attributes are keyed as serialized.
 
-MUTANTS (scratch worktree of /repo; see the final report for the table): every one reported VIOLATION.
+MUTANTS (scratch worktree of /repo at 3fc58a7, quick tier, seed 0; every one reported VIOLATION):
+  m1 _remove_trailing_outputs drops one output too many   -> correspondence agree_ser + agree_roundtrip; oracle
+     iso:connectivity and roundtrip:from_proto (KeyError); concrete shrunk replays
+  m2 `value.const_value.name = value.name` removed         -> agree_ser + agree_after_ser; oracle
+     side-effect:tensor-name + iso:initializers (replay = corpus optional_outputs_unsorted_capture)
+  m3 node outputs declared per node right before _deserialize_node (not for all nodes first)
+                                                           -> agree_roundtrip; oracle roundtrip:from_proto (ValueError),
+     iso:sharing / iso:producer on captured later values
+  m4 input lookup outermost scope first (no `reversed`)    -> agree_roundtrip; oracle iso:sharing / iso:uses (shadowing)
+  m5 value_info also emitted for node outputs that are graph outputs -> agree_ser only (harmless for the round trip:
+     reported as VIOLATION ... no-failing-input-found, which is accurate)
+  m6 value_info also emitted for initializers that are graph inputs  -> agree_ser only (same remark)
+  m7 serialize_node_into names an unnamed node (mutates the IR)      -> agree_ser + agree_after_ser; oracle side-effect:n.name
+  m8 node doc_string dropped when the node has metadata    -> agree_ser + agree_roundtrip; oracle iso:doc (5-op replay)
 """
 
 # --------------------------------------------------------------------------- recipes: building IR models through the public API
